@@ -117,7 +117,7 @@ func main() {
 					inconclusive = append(inconclusive, en+": vacuity witness not reached: "+tag)
 				}
 			}
-			if st.Asserts+st.AssertsTrivial == 0 && len(st.Violations) == 0 {
+			if st.Asserts+st.AssertsTrivial == 0 && len(st.Violations) == 0 && !u.PanicFreedom {
 				inconclusive = append(inconclusive, en+": no assertion was reached on any path (vacuous)")
 			}
 			// translator validation
